@@ -229,10 +229,12 @@ where
                         }
                         State::RequestInProgress(x) => {
                             x.buffer = BytesMut::with_capacity(self.upload_buffer_size);
-                            match self.upload_tx.send(bytes.freeze()).await {
-                                Ok(_) => (),
-                                Err(_) => return Err(io::Error::from(ErrorKind::UnexpectedEof)),
-                            }
+                            // A closed channel means that the request is over on the tunnel's
+                            // side (it has failed, or its response is complete). What the client
+                            // still sends for it has nowhere to go, but the answer queued for the
+                            // client must still be written: ending the session here lost it
+                            // whenever the client's bytes won the race against the answer.
+                            let _ = self.upload_tx.send(bytes.freeze()).await;
                         }
                     },
                     Err(e) => return Err(e),
